@@ -60,6 +60,9 @@ def _case(draw):
     nl = max(1, len(c["lines"]))
     c["rate_mod"] = draw(st.dictionaries(st.integers(0, nl - 1), st.sampled_from(["0.0", "2.5e-10", "1.0e-9 * sqrt(Tgas)", "-3.0e-11 * exp(-Tgas/100.0)"]), min_size=1, max_size=3)) if draw(st.booleans()) else {}
     c["rate_mod"] = {str(k): v for k, v in c["rate_mod"].items()}
+    # the network may be exported *back* into its project directory: a project set up around another network file
+    # (naunet init), loaded, edited and exported with overwrite=True
+    c["into_existing_project"] = draw(st.integers(0, 2)) == 0
     c["lines"] = [lr for lr in c["lines"] if not (lr["fmt"] == "kida" and lr["code"] == 6)] or c["lines"][:1]
     for lr in c["lines"]:
         if lr["fmt"] == "kida" and lr["code"] == 6:
@@ -241,6 +244,14 @@ def export_clause(case, failures, labels):
         except Exception:
             return False  # the direct rendering itself is refused: nothing to compare
         N.reset_naunet_state()
+        if case.get("into_existing_project"):
+            from . import c17
+
+            labels.append("export-into-existing-project")
+            old = {"fmt": "kida", "text": "\n".join(L.encode(c17._lr("kida", r, p, 3, i + 1)) for i, (r, p) in enumerate([(["C", "CH"], ["C2", "H"]), (["O", "H2"], ["OH", "H"])])) + "\n",
+                   "surface": "#", "elements": [], "pseudo": [], "replacement": {}, "allowed": [], "required": [], "binding": {}, "yields": {}, "grain_model": "",
+                   "rate_mod": {}, "ode_mod": {}, "backend": ["cvode", "dense", "cpu"]}
+            c17._write_project(old, d / "vtexp")
         net = build()
         try:
             net.export("vtexp", solver="cvode", method="dense", device="cpu", prefix=str(d), overwrite=True)
